@@ -70,3 +70,5 @@ package serverinterceptors
 //@ func serverSideAcceptable
 //@   property C01
 //@   ensures implies(err == context.DeadlineExceeded || err == breaker.ErrServiceUnavailable, !result)
+// ... also when they arrive wrapped (errors.Is, not identity)
+//@   ensures implies(err != nil && (errors.Is(err, context.DeadlineExceeded) || errors.Is(err, breaker.ErrServiceUnavailable)), !result)
